@@ -586,6 +586,21 @@ class SBV:
             return self._bin(o, lambda a, b: a >> b)
         return self._bin(o, lambda a, b: z3.LShR(a, b))
 
+    def __pow__(self, o):
+        # numpy: uint64(2) ** uint64(b) wraps modulo 2**64, i.e. 1 << b for b < 64 and 0 beyond
+        if z3.is_bv_value(z3.simplify(self.z)) and z3.simplify(self.z).as_long() == 2:
+            zo, b, s = self._coerce(o)
+            return SBV(z3.If(z3.ULT(zo, b), z3.BitVecVal(1, b) << zo, z3.BitVecVal(0, b)), b, s)
+        raise Unsupported("power of a symbolic numpy integer")
+
+    def __rpow__(self, o):
+        # numpy: uint64(2) ** uint64(b) wraps modulo 2**64, i.e. 1 << b for b < 64 and 0 beyond
+        zo, b, s = self._coerce(o)
+        if z3.is_bv_value(zo) and zo.as_long() == 2:
+            e = self._lhs(b)
+            return SBV(z3.If(z3.ULT(e, b), z3.BitVecVal(1, b) << e, z3.BitVecVal(0, b)), b, s)
+        raise Unsupported("symbolic exponent with base other than 2")
+
     def __rlshift__(self, o):
         # int << sym  (e.g. 1 << i): exact only while no bit is shifted out, which is an obligation
         zo, b, s = self._coerce(o)
